@@ -59,6 +59,49 @@ def decode_call(call):
     return None
 
 
+def nested_reads(rng, sc, sample, chrom):
+    """Interleaved components: paired fragments whose mates cover only an outer pair of variants (A, D) and whose insert
+    contains variants (B, C, ...) that are connected only among themselves by short single reads. The true components
+    are {A, D} and {B, C, ...}; a phase set that lumps them together is right only by luck of two independent tie-breaks."""
+    ref, vs, haps = sc.ref[chrom], sc.variants[chrom], sc.haps[sample][chrom]
+    het = [i for i, x in enumerate(haps) if x[0] != x[1]]
+    if len(vs) < 4:
+        return []
+
+    def window(i, j, alleles):
+        a, e = max(0, vs[i].pos - 12), min(len(ref) - 1, vs[j].pos + len(vs[j].ref) + 12)
+        while a < e and not synth.legal_boundary(vs, a):
+            a += 1
+        while e > a and not synth.legal_boundary(vs, e, alleles, True):
+            e -= 1
+        return a, e
+
+    out, k = [], 0
+    i = rng.randint(0, len(vs) - 4)
+    j = rng.randint(i + 3, len(vs) - 1)
+    for rep in range(rng.randint(2, 4)):
+        for h in (0, 1):
+            alleles = [x[h] for x in haps]
+            (s1, e1), (s2, e2) = window(i, i, alleles), window(j, j, alleles)
+            if e1 - s1 < 10 or e2 - s2 < 10 or s2 < e1:
+                continue
+            q1, c1 = synth.hap_walk(ref, vs, alleles, s1, e1)
+            q2, c2 = synth.hap_walk(ref, vs, alleles, s2, e2)
+            name = f"{sample}_{chrom}_n{k}"
+            k += 1
+            out.append(dict(name=name, sample=sample, chrom=chrom, start=s1, cigar=c1, seq=q1, qual=30, hap=h,
+                            flag=0x1 | 0x2 | 0x40 | 0x20, mate_start=s2))
+            out.append(dict(name=name, sample=sample, chrom=chrom, start=s2, cigar=c2, seq=q2, qual=30, hap=h,
+                            flag=0x1 | 0x2 | 0x80 | 0x10, mate_start=s1))
+            s3, e3 = window(i + 1, j - 1, alleles)
+            if e3 - s3 >= 10:
+                q3, c3 = synth.hap_walk(ref, vs, alleles, s3, e3)
+                out.append(dict(name=f"{sample}_{chrom}_n{k}", sample=sample, chrom=chrom, start=s3, cigar=c3, seq=q3,
+                                qual=30, hap=h, flag=0))
+                k += 1
+    return out
+
+
 def make_case(ctx, rng):
     nsamples = rng.choice([1, 1, 2, 3])
     nchrom = rng.choice([1, 1, 2])
@@ -68,8 +111,12 @@ def make_case(ctx, rng):
                              het_fraction=rng.choice([0.6, 0.8, 1.0]))
     reads = []
     depth_mode = rng.choice(["low", "mid", "high"])
+    nested = rng.random() < 0.2
     for s in sc.samples:
         for c in sc.chroms:
+            if nested:
+                reads += nested_reads(rng, sc, s, c)
+                continue
             n = {"low": rng.randint(3, 10), "mid": rng.randint(10, 40), "high": rng.randint(40, 90)}[depth_mode]
             lr = rng.choice([(60, 150), (120, 350), (250, 700)])
             reads += synth.simulate_reads(rng, sc, s, c, n, len_range=lr, paired_fraction=rng.choice([0, 0, 0.4]),
@@ -78,7 +125,7 @@ def make_case(ctx, rng):
     opts = {"tag": rng.choice(["PS", "HP"]), "only_snvs": rng.random() < 0.2,
             "downsampling": rng.choice([2, 3, 4, 6, 15]),
             "samples": None, "nbam": rng.choice([1, 1, 2]), "rg_per_sample": rng.choice([1, 1, 2, 3]),
-            "mapq0": rng.random() < 0.25, "ignore_rg": nsamples == 1 and rng.random() < 0.3}
+            "mapq0": rng.random() < 0.25, "ignore_rg": nsamples == 1 and rng.random() < 0.3, "nested": nested}
     if opts["mapq0"]:
         # run with --mapping-quality 0 and give reads arbitrary mapping qualities incl. 0: every read must then be
         # used with its full base-quality weights
@@ -380,6 +427,8 @@ def do_runs(ctx, specs):
             if opts.get("nbam", 1) == 2:
                 ctx.tally("runs_with_read_group_id_meaning_another_sample_in_the_other_file")
         ctx.tally("read_groups_per_sample", opts.get("rg_per_sample", 1))
+        if opts.get("nested"):
+            ctx.tally("runs_with_interleaved_components_(pairs_around_inner_reads)")
         if opts.get("desc_gt"):
             ctx.tally("runs_with_descending_unphased_input_genotypes")
             ctx.tally("input_calls_written_1/0", len(opts["desc_gt"]))
